@@ -97,6 +97,17 @@ def build_design(desc):
     return top, ports
 
 
+def _port_form(desc, ports):
+    """The port list as bare signals, as (name, signal, direction) triples or as a dict - the same object is handed to
+    both conversions of a design."""
+    form = desc.get("port_form", 0)
+    if form == 1:
+        return [(f"p{i}", sig, None) for i, sig in enumerate(ports)]
+    if form == 2:
+        return {f"p{i}": (sig, None) for i, sig in enumerate(ports)}
+    return ports
+
+
 def rtlil_hashes(descs):
     """Per design: sha256 of (fresh build, the same object converted again, another fresh build)."""
     from amaranth.back import rtlil
@@ -105,13 +116,14 @@ def rtlil_hashes(descs):
         with warnings.catch_warnings():
             warnings.simplefilter("ignore")
             top, ports = build_design(desc)
+            ports = _port_form(desc, ports)
             t1 = rtlil.convert(top, ports=ports)
             try:
                 t2 = rtlil.convert(top, ports=ports)
             except Exception as e:
                 t2 = f"second conversion raised {type(e).__name__}: {e}"
             top3, ports3 = build_design(desc)
-            t3 = rtlil.convert(top3, ports=ports3)
+            t3 = rtlil.convert(top3, ports=_port_form(desc, ports3))
         out.append([hashlib.sha256(t.encode()).hexdigest() for t in (t1, t2, t3)])
     return out
 
